@@ -165,7 +165,7 @@ CHECKS = {
     "C04": dict(
         engine="E2-handler",
         technique="Coq proof over functions REGENERATED from /repo/src by a fail-closed Python-ast translator (pure.py) and proved equal to the model + Coq proof (state invariant over all hit histories: count, spacing, window, liveness; invariant of the N-thread interleaving semantics over all schedules; unlocked discipline refuted by witness) + in-Coq correspondence under a virtual clock and forced schedules",
-        text="14 Coq theorems over Limiter.v: for every hit history and every setting (text, number, absent, unparsable -> "
+        text="15 Coq theorems over Limiter.v: for every hit history and every setting (text, number, absent, unparsable -> "
              "defaults 1/1000) at most fire_count collections unless -1, consecutive collections >= fire_period ms apart "
              "(boundary collects), none outside the window the action holds, permitted true hits do collect; for ANY number "
              "of threads and ANY schedule of their steps (check; condition; atomic claim; collect) the same bounds hold in "
